@@ -198,11 +198,15 @@ class ListCommand(CommandAuth):
         match = cls._list_mailbox_pattern.match(buf)
         if match:
             filter_raw = match.group(0)
-            buf = buf[match.end(0):]
-            filter_ = modutf7_decode(filter_raw)
+            after = buf[match.end(0):]
         else:
-            filter_str, buf = String.parse(buf, params)
-            filter_ = modutf7_decode(filter_str.value)
+            filter_str, after = String.parse(buf, params)
+            filter_raw = filter_str.value
+        try:
+            filter_ = modutf7_decode(filter_raw)
+        except UnicodeError as exc:
+            raise NotParseable(buf) from exc
+        buf = after
         _, buf = EndLine.parse(buf, params)
         return cls(params.tag, ref_name.value, filter_), buf
 
